@@ -196,13 +196,24 @@ func execRegs(ts []string) string {
 	data, spare := unhx(ts[1]), unhx(ts[2])
 	start, order := uint16(atoi(ts[3])), atoi(ts[4])
 	ops := strings.Split(ts[5], ";")
+	var sib *packet.Registers
+	wantSibling := true
 	mk := func() (*packet.Registers, []byte, error) {
 		d := withSpare(data, spare)
+		if wantSibling {
+			// a second view of the same payload, taken first and left unconfigured
+			wantSibling = false
+			sib, _ = packet.NewRegisters(d, start)
+		}
 		r, err := packet.NewRegisters(d, start)
 		if err != nil {
 			return nil, d, err
 		}
 		if order != 0 {
+			// configured twice (first with another order): the last configuration is the one that counts
+			if variantOf(ts[1]+ts[5])%2 == 1 {
+				r = r.WithByteOrder(packet.ByteOrder(order ^ 3))
+			}
 			r = r.WithByteOrder(packet.ByteOrder(order))
 		}
 		return r, d, nil
@@ -223,6 +234,18 @@ func execRegs(ts []string) string {
 	for k, again := range kept.again {
 		if again() != kept.first[k] {
 			seq[kept.index[k]] += " CHANGED-BY-A-LATER-READ"
+		}
+	}
+	if sib != nil && order != 0 {
+		// two views of one response are independent: configuring one does not reconfigure the other
+		plain, err2 := packet.NewRegisters(withSpare(data, spare), start)
+		if err2 == nil {
+			for _, op := range ops {
+				if accessOne(sib, op) != accessOne(plain, op) {
+					seq[0] += " OTHER-VIEW-OF-THE-RESPONSE-RECONFIGURED"
+					break
+				}
+			}
 		}
 	}
 	after := hx(d[:len(data)])
